@@ -221,6 +221,71 @@ def _judge_multi(case):
     return None
 
 
+# classes defined inside the test function, directly or inside a class / a function defined there: the written name has to be the
+# part of the qualified name that is in scope at the call site (`test_0.<locals>.NS.Color` -> `NS.Color`)
+LOCAL_KINDS = {
+    "enum": ("import enum\nclass Color(enum.Enum):\n    red = 1\n    blue = 2\n", "{Q}Color.blue"),
+    "flag": ("import enum\nclass Perm(enum.Flag):\n    R = 1\n    W = 2\n", "{Q}Perm.R | {Q}Perm.W"),
+    "type": ("class Kx:\n    pass\n", "{Q}Kx"),
+    "hasrepr": ("class Thing:\n    def __repr__(self):\n        return '<thing>'\n    def __eq__(self, o):\n        return type(o).__name__ == 'Thing' or NotImplemented\n    __hash__ = None\n", "{Q}Thing()"),
+    "dataclass": ("import dataclasses\n@dataclasses.dataclass\nclass Pt:\n    x: int\n    y: int = 0\n", "{Q}Pt(x=1, y=2)"),
+    "namedtuple": ("import typing\nclass NTl(typing.NamedTuple):\n    a: int\n    b: int = 0\n", "{Q}NTl(a=1, b=2)"),
+}
+LOCAL_NESTS = ("function", "class-in-function", "class-in-class-in-function", "function-in-function", "class-in-function-in-function")
+LOCAL_OPS = ("==", "in-list", "[k]")
+
+
+def _ind(text, n):
+    return "".join(("    " * n + l if l.strip() else l) for l in text.splitlines(True))
+
+
+def _local_module(case):
+    defs, expr = LOCAL_KINDS[case["loc"]]
+    nest = case["nest"]
+    q = {"function": "", "class-in-function": "NS.", "class-in-class-in-function": "NS.Sub.", "function-in-function": "", "class-in-function-in-function": "NS."}[nest]
+    expr = expr.replace("{Q}", q)
+    site = {"==": "assert [%s, 1] == snapshot()\n" % expr, "in-list": "assert %s in snapshot()\n" % expr,
+            "[k]": "s = snapshot()\nassert s['k'] == {'v': %s}\n" % expr}[case["op"]]
+    if nest in ("function", "function-in-function"):
+        body = defs + site
+    elif nest in ("class-in-function", "class-in-function-in-function"):
+        body = "class NS:\n" + _ind(defs, 1) + site
+    else:
+        body = "class NS:\n    class Sub:\n" + _ind(defs, 2) + site
+    if nest.endswith("function-in-function"):
+        body = "def inner():\n" + _ind(body, 1) + "inner()\n"
+    return "from inline_snapshot import snapshot\n\n\ndef test_0():\n" + _ind(body, 1)
+
+
+def _local_cases(tier):
+    return [{"loc": k, "nest": n, "op": op} for k in LOCAL_KINDS for n in LOCAL_NESTS for op in LOCAL_OPS]
+
+
+def _judge_local(case):
+    """Real sessions: create, then the rewritten file must pass with --inline-snapshot=disable and without a flag."""
+    from ..drivers import plugin
+
+    src = _local_module(case)
+    d = plugin.mk_project({"test_something.py": src, "pyproject.toml": ""})
+    try:
+        r1 = plugin.session(d, ["--inline-snapshot=create"])
+        after = plugin.listing(d, text=True).get("test_something.py", "")
+        r2 = plugin.session(d, ["--inline-snapshot=disable"])
+        r3 = plugin.session(d, [])
+    finally:
+        plugin.cleanup()
+    detail = "\n--- before ---\n%s\n--- after ---\n%s\n--- disable run ---\n%s" % (src[-900:], after[-900:], r2["out"][-700:])
+    if plugin.internal_error(r1["out"]) or r1["rc"] not in (0, 1):
+        return ("internal-error", "rc=%s %s" % (r1["rc"], r1["out"][-500:]) + detail)
+    if after == src or "snapshot()" in after:
+        return ("not-created", detail)
+    for r, what in ((r2, "disabled-rerun-fails"), (r3, "plain-rerun-fails")):
+        got = r["outcomes"].get("test_something.py::test_0", [])
+        if r["rc"] != 0 or got != ["PASSED"]:
+            return (what, "rc=%s outcomes=%s" % (r["rc"], got) + detail)
+    return None
+
+
 def build(tier, seed):
     cases = _cases(tier)
     groups = {}
@@ -236,6 +301,9 @@ def build(tier, seed):
     mc = _multi_cases(tier)
     for i in range(0, len(mc), 5):
         tasks.append({"multi": mc[i : i + 5]})
+    lc = _local_cases(tier)
+    for i in range(0, len(lc), 5):
+        tasks.append({"local": lc[i : i + 5]})
     return tasks
 
 
@@ -295,6 +363,9 @@ def run_case(case):
     if "multi" in case:
         v = _judge_multi(case)
         return [{"case": case, "what": v[0], "detail": v[1]}] if v else []
+    if "loc" in case:
+        v = _judge_local(case)
+        return [{"case": case, "what": v[0], "detail": v[1]}] if v else []
     if "hdr" in case:
         v = _judge_plugin(case)
         return [{"case": case, "what": v[0], "detail": v[1]}] if v else []
@@ -319,6 +390,18 @@ def run_task(task):
             if not vs:
                 out["nontrivial"].append("multi|%s" % "|".join(c["multi"]))
             out["outcomes"][lab] = out["outcomes"].get(lab, 0) + 1
+        return out
+    if "local" in task:
+        out = {"n": 0, "nontrivial": [], "outcomes": {}, "violations": [], "samples": []}
+        for c in task["local"]:
+            out["n"] += 1
+            vs = run_case(c)
+            lab = "viol:" + vs[0]["what"] if vs else "ok:local-class:" + c["nest"]
+            out["violations"] += vs
+            if not vs:
+                out["nontrivial"].append("local|%s|%s|%s" % (c["loc"], c["nest"], c["op"]))
+            out["outcomes"][lab] = out["outcomes"].get(lab, 0) + 1
+        out["samples"].append({"local_case": task["local"][0], "module": _local_module(task["local"][0])})
         return out
     if "plugin" in task:
         out = {"n": 0, "nontrivial": [], "outcomes": {}, "violations": [], "samples": []}
